@@ -49,6 +49,20 @@ CHECKS = {
              "free-text literals stop only at their own delimiter, the "
              "backslash arm keeps escaped delimiters in the payload.",
         ref="DESIGN.md §3 C03"),
+    "C07": dict(
+        technique="exact-arithmetic vocabulary check (abstract typing "
+                  "int/Rational vs float) of the (num, num) overload arms "
+                  "extracted from the dispatch tables, and of vyxalify",
+        category="other",
+        text="Clause-level: the (num, num) arm of add/subtract/multiply/"
+             "divide/modulo/integer_divide is built only from exact "
+             "operations (+ - * // %, or / with an operand lifted to a sympy "
+             "number), wrapped only by exact normalisers, with no float(), "
+             "math.*, sympy.N or closed-form-guessing nsimplify; divide and "
+             "integer_divide are guarded by `0 if rhs == 0`; vyxalify "
+             "normalises with rational=True and maps Integer to int. Does "
+             "not decide value equality.",
+        ref="DESIGN.md §3 C07"),
     "C08": dict(
         technique="call-site conformance analysis of every vectorise(...) "
                   "fallback against the enclosing function's signature, "
